@@ -209,7 +209,9 @@ func (jenny RawTypes) defaultValuesForStructType(structType ast.Type, packageMap
 			}
 		}
 
-		if !field.Required {
+		// the value of a reference to a constant is fixed by the schema: nothing
+		// else sets it, be the field optional or not.
+		if !field.Required && !field.Type.IsConstantRef() {
 			continue
 		}
 
